@@ -40,7 +40,7 @@ TStep == /\ IsEvent("Step") /\ LET e == TraceLog[l] IN
          /\ Frame
 TNextIdx == /\ IsEvent("NextIdx")
             /\ LET e == TraceLog[l]
-                   x == [v EXCEPT !.i = @ + 1, !.step = 0, !.pc = FALSE, !.cd = FALSE, !.cm = FALSE, !.over = {}]
+                   x == Advance(v)
                    q == x.cache[x.i]
                IN /\ Take(e, ReplayCached(x))
                   \* the messages the real handler replayed, in the driver's order
